@@ -31,7 +31,7 @@ SPEC = {
         "thorough": {"shards": 16, "budget_s": 600},
     },
     "floors": {
-        "quick": {
+        "quick": {"bip32_malformed_paths_checked": 5000, "requirement_intersections_checked": 9, "request_intersections_checked": 500, 
             "evaluations": 8_400, "distinct_nontrivial": 500, "accounts": 350,
             "accounts_net_main": 100, "accounts_net_test": 100, "accounts_net_regtest": 100,
             "usk_bytes_roundtrips": 350, "usk_permuted_item_order_decoded": 350,
